@@ -46,6 +46,13 @@ Theorem C16_zero_never : forall (lw : list xlog) (us : list R) (i : nat),
 Proof. exact zero_never. Qed.
 Print Assumptions C16_zero_never.
 
+(* with no finite weight nothing is kept; with at least one and uniforms in [0, 1) the posterior is never empty *)
+Theorem C16_empty_iff_no_weight : forall (lw : list xlog) (us : list R),
+  (xmaxo lw = None -> rejection lw us = []) /\
+  (has_finite lw -> length us = length lw -> Forall (fun u => 0 <= u < 1) us -> rejection lw us <> []).
+Proof. intros lw us. split; [exact (rejection_none lw us)|exact (rejection_nonempty lw us)]. Qed.
+Print Assumptions C16_empty_iff_no_weight.
+
 (* multinomial resampling returns exactly the requested number of indices, all valid; the default is
    int(ESS), which is the floor of the ESS and lies in 1..len *)
 Theorem C16_multinomial_n : forall (choice : nat -> nat -> list R -> list nat),
